@@ -64,20 +64,30 @@ SelGarbage == {g \in Garbage : Balanced(g) /\ "{" \notin Range(g) /\ "@kw" \noti
                   /\ ~(\A i \in 1..Len(g) : g[i] \in {"ident", "*", "#hash", ":", ","}) }
 AtGarbage == {g \in Garbage : Balanced(g) /\ Len(g) <= 2 /\ "{" \notin Range(g)}
 Misplaced == {"charset-late", "import-late", "namespace-late", "namespace-redeclare-late", "namespace-default-late", "import-in-media",
-              "margin-outside-page", "charset-in-media", "fontface-in-media"}
+              "margin-outside-page", "charset-in-media", "fontface-in-media", "import-nosemi-last-in-media"}
 \* statement boundaries at which a head rule (@charset, @import, @namespace) is misplaced: after a rule of the body
 MisPositions(b) == {j \in 1..Len(Bases[b]) : \E i \in 1..j : Bases[b][i].k \in {"style", "media", "page", "fontface"}}
 
 NDecls(r) == IF r.k \in {"style", "page", "fontface"} THEN Len(r.body) ELSE 0
 DeclRows == UNION {{[kind |-> "damage", what |-> "declaration", base |-> b, rule |-> i, at |-> j, g |-> g] :
                       i \in {x \in 1..Len(Bases[b]) : Bases[b][x].k = "style"}, j \in 0..2, g \in DeclGarbage} : b \in {"s1", "s2"}}
-SelRows  == UNION {{[kind |-> "damage", what |-> "selector", base |-> b, rule |-> 0, at |-> j, g |-> g] : j \in 0..Len(Bases[b]), g \in SelGarbage} : b \in {"s2", "s4"}}
+SelRows  == UNION {{[kind |-> "damage", what |-> "selector", base |-> b, rule |-> 0, at |-> j, g |-> g] : j \in 0..Len(Bases[b]), g \in SelGarbage} : b \in {"s2", "s3", "s4"}}
 AtRows   == UNION {{[kind |-> "damage", what |-> w, base |-> b, rule |-> 0, at |-> j, g |-> g] :
                       w \in {"unknown-at-statement", "unknown-at-block"}, j \in 0..Len(Bases[b]), g \in AtGarbage} : b \in {"s2", "s3"}}
 MisRows  == UNION {{[kind |-> "damage", what |-> w, base |-> b, rule |-> 0, at |-> j, g |-> <<>>] : w \in Misplaced, j \in MisPositions(b)} : b \in BaseIds}
 InMedia  == {[kind |-> "damage", what |-> "declaration", base |-> "s4", rule |-> 1, at |-> j, g |-> g] : j \in 0..2, g \in {x \in DeclGarbage : Len(x) <= 2}}
 TruncRows == {[kind |-> "trunc", base |-> b, step |-> CutStep, what |-> "prefix", rule |-> 0, at |-> 0, g |-> <<>>] : b \in BaseIds}
-Rows == DeclRows \cup SelRows \cup AtRows \cup MisRows \cup InMedia \cup TruncRows
+\* an unknown at-rule (statement, block, block holding a rule) at every declaration boundary of every kind of declaration block
+\* (style rule, @page, margin box, @font-face, also nested in @media: the adapter numbers the boundaries of the rendered base and
+\* skips numbers the base does not have), followed directly by the next declaration, by a space or by a semicolon
+MaxBoundary == 9
+InBlockRows == {[kind |-> "damage", what |-> "at-in-block", base |-> b, rule |-> 0, at |-> j, g |-> g, form |-> f, sep |-> sp] :
+                  b \in {"s1", "s4", "s5", "s6", "s9"}, j \in 0..MaxBoundary, g \in {<<>>, <<"ident">>, <<"string", "number">>},
+                  f \in {"statement", "block", "block-rule"}, sp \in {"glued", "space", "semicolon"}}
+\* a head statement (@import, @namespace) that is malformed because it carries a block, at every statement boundary
+HeadBlockRows == UNION {{[kind |-> "damage", what |-> w, base |-> b, rule |-> 0, at |-> j, g |-> <<>>] :
+                           w \in {"import-with-block", "namespace-with-block"}, j \in 0..Len(Bases[b])} : b \in {"s2", "s3", "s4"}}
+Rows == DeclRows \cup SelRows \cup AtRows \cup MisRows \cup InMedia \cup TruncRows \cup InBlockRows \cup HeadBlockRows
 Init == row \in Rows
 Next == UNCHANGED row
 Spec == Init /\ [][Next]_row
